@@ -183,6 +183,18 @@ func instrumentFile(p *packages.Package, f *ast.File, fn string, pristine bool) 
 		pp := fset.Position(n.Pos())
 		rep.Census = append(rep.Census, censusHit{what, fmt.Sprintf("%s:%d", rel(pp.Filename), pp.Line), class})
 	}
+	// hash/maphash cannot be replayed (per-process keys, runtime-random seeds):
+	// the import is redirected to a stand-in with the same API that draws its
+	// seeds from the simulated randomness
+	for _, im := range f.Imports {
+		if im.Path.Value == `"hash/maphash"` {
+			o, e := fset.Position(im.Path.Pos()).Offset, fset.Position(im.Path.End()).Offset
+			edits = append(edits, edit{o, len(edits), fmt.Sprintf("%q", simPath+"/maphash"), e - o})
+			keepAlive["verifsim_.Yield"] = true
+			census(im, "owned-random", "hash/maphash (simulated seeds, fixed hash function)")
+			rep.RandSites++
+		}
+	}
 	// statements whose sync call is at statement level (handled, not census)
 	handledSync := map[ast.Node]bool{}
 	syncMethod := func(call *ast.CallExpr) (string, bool) {
